@@ -7,10 +7,17 @@ theorem parseStrTok_ok {tok : Str} (h : tok ≠ []) : ∃ v, parseStrTok tok = .
   | nil => exact absurd rfl h
   | cons q r => exact ⟨_, rfl⟩
 
-theorem pyInt_ok {tok : Str} (h : TokOK .int tok) : ∃ n, pyInt tok = .ok n := by
-  unfold pyInt
-  rw [if_pos ⟨h.1, h.2 rfl⟩]
-  exact ⟨_, rfl⟩
+theorem pyInt_cases (tok : Str) :
+    pyInt tok = .ok (natOfDigits tok) ∨ pyInt tok = .error (.py .valueError) := by
+  unfold pyInt; split
+  · exact Or.inl rfl
+  · exact Or.inr rfl
+
+theorem parseIntTok_onlyParse (tok : Str) : OnlyParse (parseIntTok tok) := by
+  unfold parseIntTok
+  rcases pyInt_cases tok with h | h <;> rw [h]
+  · exact onlyParse_ok _
+  · exact onlyParse_parse _
 
 theorem length_dropLast_drop1_le (tok : Str) (_h : tok ≠ []) : ((tok.drop 1).dropLast).length ≤ tok.length - 1 := by
   simp
@@ -40,9 +47,7 @@ theorem budget (ns : Ns) : ∀ f, Budget ns f := by
       rw [parseTok.eq_def]
       simp only
       cases ty with
-      | int =>
-        obtain ⟨n, hn⟩ := pyInt_ok hok
-        simp only [hn]; exact onlyParse_ok _
+      | int => exact onlyParse_map _ (parseIntTok_onlyParse tok)
       | str =>
         obtain ⟨v, hv⟩ := parseStrTok_ok hne
         simp only [hv]; exact onlyParse_ok _
